@@ -123,6 +123,51 @@ def dump(stmts):
     return [ser(s) for s in stmts]
 
 
+def semantically_equal(m, pf, cf):
+    """python method pf and compiled method cf compute the same thing: for kernel / dwdq / gradient_h the same expression on every piece of the common refinement of their
+    branch points (r = 0 branch included); for gradient the same three stored components (value numbering).  False when that cannot be shown."""
+    try:
+        if m in ('kernel', 'dwdq', 'gradient_h', 'get_deltap'):
+            import copy as _c
+            cf2 = ast.FunctionDef(name=cf.name, args=cf.args, body=[st for st in M.docstring_stripped(cf.body) if not (isinstance(st, ast.AnnAssign) and st.value is None)], decorator_list=[])
+            for keep_r0 in (False, True):
+                la, lb = qleaves(pf, keep_r0=keep_r0), qleaves(cf2, keep_r0=keep_r0)
+                if keep_r0:
+                    la = [l for l in la if is_r0(l[2])]
+                    lb = [l for l in lb if is_r0(l[2])]
+                    if bool(la) != bool(lb):
+                        return False
+                    if not la:
+                        continue
+                bps = breakpoints(la, lb)
+                pts = sorted(bps)
+                samples = [(x, x) for x in pts] + [(pts[i], pts[i + 1]) for i in range(len(pts) - 1)] + [(pts[-1], None)]
+                for lo, hi in samples:
+                    ea = leaf_at_point(la, lo) if lo == hi else leaf_on_open(la, lo, hi)
+                    eb = leaf_at_point(lb, lo) if lo == hi else leaf_on_open(lb, lo, hi)
+                    if (ea is None) != (eb is None):
+                        return False
+                    if ea is None:
+                        continue
+                    pa_, pb_ = to_poly(ea[1]) if ea[1] is not None else None, to_poly(eb[1]) if eb[1] is not None else None
+                    if pa_ is None or pb_ is None or not (pa_ - pb_).is_zero():
+                        return False
+            return True
+        if m == 'gradient':
+            from verif_static import symb as S
+            ctx = S.Ctx(seconds=20)
+            vals = []
+            for f in (pf, cf):
+                body = [st for st in M.docstring_stripped(f.body) if not (isinstance(st, ast.AnnAssign) and st.value is None)]
+                ev = S.Evaluator(ctx, ast.FunctionDef(name='gradient', args=f.args, body=body, decorator_list=[]))
+                ev.run()
+                vals.append([ev.env.get('grad[%d]' % k) for k in range(3)])
+            return all(x is not None and y is not None and ctx.prove_zero(x - y)[0] for x, y in zip(*vals))
+    except Exception:
+        return False
+    return False
+
+
 def rule_twin(chk):
     py = M.py(KER)
     cy = M.cy(CK)
@@ -150,6 +195,10 @@ def rule_twin(chk):
             args_ok = M.arg_names(pm[m]) == M.arg_names(cm[m])
             if a == b and args_ok:
                 chk.holds('compiled-twin', '%s.%s' % (name, m), node=cm[m], file=CK, func='%s.%s' % (name, m), detail='%d statements identical' % len(a))
+            elif args_ok and semantically_equal(m, pm[m], cm[m]):
+                # written differently (one side was tidied and the other not regenerated yet) but the same function of (q, h, FAC, DIM) piece by piece / the same
+                # stored gradient components
+                chk.holds('compiled-twin', '%s.%s' % (name, m), node=cm[m], file=CK, func='%s.%s' % (name, m), detail='same piecewise function, different spelling')
             else:
                 k = next((i for i, (x, y) in enumerate(zip(a, b)) if x != y), min(len(a), len(b)))
                 ps = norm_body(M.docstring_stripped(pm[m].body))
